@@ -18,7 +18,7 @@ package propertyf
 //@   requires st != nil && validR(readBuf)
 //@   let p0 = readBuf.buf.i
 //@   let allocbudget = 256 * len(readBuf.buf.src)
-//@   modifies *st, readBuf.buf.i, readBuf.depth
+//@   modifies *st, readBuf.rderr, readBuf.buf.i, readBuf.depth
 //@   allocates
 //@   ensures [C05] readBuf.buf.i >= p0
 //@   ensures [C05] validR(readBuf)
@@ -68,6 +68,16 @@ package propertyf
 //@   ensures [C04] (ok8 && err == nil) ==> st.IPropertyVer == (k8 == 0 ? decIntV(src, q7, 7, d0) : 1)
 //@   ensures [C06] (ok7 && k8 == 2) ==> err != nil
 //@   ensures [C04] ok8 ==> (err == nil && readBuf.buf.i == q8)
+//@   site ResetDefault#0 ghost readBuf.rderr = false
+//@   site ).Read#0 ghostafter readBuf.rderr = readBuf.rderr || $ret != nil
+//@   site ).Read#1 ghostafter readBuf.rderr = readBuf.rderr || $ret != nil
+//@   site ).Read#2 ghostafter readBuf.rderr = readBuf.rderr || $ret != nil
+//@   site ).Read#3 ghostafter readBuf.rderr = readBuf.rderr || $ret != nil
+//@   site ).Read#4 ghostafter readBuf.rderr = readBuf.rderr || $ret != nil
+//@   site ).Read#5 ghostafter readBuf.rderr = readBuf.rderr || $ret != nil
+//@   site ).Read#6 ghostafter readBuf.rderr = readBuf.rderr || $ret != nil
+//@   site ).Read#7 ghostafter readBuf.rderr = readBuf.rderr || $ret != nil
+//@   ensures [C06] readBuf.rderr ==> err != nil
 //@   site ).Read#0 assert [C04] $2 == 0 && $3 == true
 //@   site ).Read#1 assert [C04] $2 == 1 && $3 == true
 //@   site ).Read#2 assert [C04] $2 == 2 && $3 == true
@@ -84,10 +94,11 @@ package propertyf
 //@   requires st != nil && validR(readBuf)
 //@   let p0 = readBuf.buf.i
 //@   let allocbudget = 256 * len(readBuf.buf.src)
-//@   modifies *st, readBuf.buf.i, readBuf.depth
+//@   modifies *st, readBuf.rderr, readBuf.buf.i, readBuf.depth
 //@   allocates
 //@   ensures [C05] readBuf.buf.i >= p0
 //@   ensures [C05] validR(readBuf)
+//@   ensures [C06] (readBuf.rderr && !old(readBuf.rderr)) ==> result != nil
 //@   safety [C05]
 //
 //@ func (*StatPropMsgHead).WriteTo
@@ -151,7 +162,7 @@ package propertyf
 //@   requires st != nil && validR(readBuf)
 //@   let p0 = readBuf.buf.i
 //@   let allocbudget = 256 * len(readBuf.buf.src)
-//@   modifies *st, readBuf.buf.i, readBuf.depth
+//@   modifies *st, readBuf.rderr, readBuf.buf.i, readBuf.depth
 //@   allocates
 //@   ensures [C05] readBuf.buf.i >= p0
 //@   ensures [C05] validR(readBuf)
@@ -171,6 +182,10 @@ package propertyf
 //@   ensures [C04] (ok2 && err == nil) ==> st.Value == (k2 == 0 ? decStrV(src, q1, 1, d0) : old(st.Value))
 //@   ensures [C06] (ok1 && k2 == 2) ==> err != nil
 //@   ensures [C04] ok2 ==> (err == nil && readBuf.buf.i == q2)
+//@   site ResetDefault#0 ghost readBuf.rderr = false
+//@   site ).Read#0 ghostafter readBuf.rderr = readBuf.rderr || $ret != nil
+//@   site ).Read#1 ghostafter readBuf.rderr = readBuf.rderr || $ret != nil
+//@   ensures [C06] readBuf.rderr ==> err != nil
 //@   site ).Read#0 assert [C04] $2 == 0 && $3 == true
 //@   site ).Read#1 assert [C04] $2 == 1 && $3 == true
 //@   sites ).Read = 2
@@ -181,10 +196,11 @@ package propertyf
 //@   requires st != nil && validR(readBuf)
 //@   let p0 = readBuf.buf.i
 //@   let allocbudget = 256 * len(readBuf.buf.src)
-//@   modifies *st, readBuf.buf.i, readBuf.depth
+//@   modifies *st, readBuf.rderr, readBuf.buf.i, readBuf.depth
 //@   allocates
 //@   ensures [C05] readBuf.buf.i >= p0
 //@   ensures [C05] validR(readBuf)
+//@   ensures [C06] (readBuf.rderr && !old(readBuf.rderr)) ==> result != nil
 //@   safety [C05]
 //
 //@ func (*StatPropInfo).WriteTo
@@ -223,12 +239,18 @@ package propertyf
 //@   requires st != nil && validR(readBuf)
 //@   let p0 = readBuf.buf.i
 //@   let allocbudget = 256 * len(readBuf.buf.src)
-//@   modifies *st, readBuf.buf.i, readBuf.depth
+//@   modifies *st, readBuf.rderr, readBuf.buf.i, readBuf.depth
 //@   allocates
 //@   ensures [C05] readBuf.buf.i >= p0
 //@   ensures [C05] validR(readBuf)
-//@   loop 0 modifies elems(st.VInfo), readBuf.buf.i, readBuf.depth
+//@   loop 0 modifies elems(st.VInfo), readBuf.buf.i, readBuf.depth, readBuf.rderr
 //@   loop 0 invariant [C05] validR(readBuf) && readBuf.buf.i >= p0 && st != nil && len(st.VInfo) == e0 && 0 <= i0
+//@   loop 0 invariant [C06] !readBuf.rderr
+//@   site ResetDefault#0 ghost readBuf.rderr = false
+//@   site ).Read#0 ghostafter readBuf.rderr = readBuf.rderr || $ret != nil
+//@   site ).Read#1 ghostafter readBuf.rderr = readBuf.rderr || $ret != nil
+//@   site ).Skip#0 ghostafter readBuf.rderr = readBuf.rderr || $ret2 != nil
+//@   ensures [C06] readBuf.rderr ==> err != nil
 //@   site ).Read#0 assert [C04] $2 == 0 && $3 == true
 //@   site ).Read#1 assert [C04] $2 == 0 && $3 == true
 //@   sites ).Read = 2
@@ -240,10 +262,11 @@ package propertyf
 //@   requires st != nil && validR(readBuf)
 //@   let p0 = readBuf.buf.i
 //@   let allocbudget = 256 * len(readBuf.buf.src)
-//@   modifies *st, readBuf.buf.i, readBuf.depth
+//@   modifies *st, readBuf.rderr, readBuf.buf.i, readBuf.depth
 //@   allocates
 //@   ensures [C05] readBuf.buf.i >= p0
 //@   ensures [C05] validR(readBuf)
+//@   ensures [C06] (readBuf.rderr && !old(readBuf.rderr)) ==> result != nil
 //@   safety [C05]
 //
 //@ func (*StatPropMsgBody).WriteTo
